@@ -10,7 +10,7 @@ PROP = dict(
     stages=[dict(kind="walk", module="TTL", pkg="generics", test="TestVerifTTL", harness=["generics/ttl_test.go"],
                  alternatives=[dict(name="closed", cfg={"quick": "MC_TTL_closed.cfg", "thorough": "MC_TTL_closed_big.cfg"}),
                                dict(name="open", cfg={"quick": "MC_TTL_open.cfg", "thorough": "MC_TTL_open_big.cfg"})],
-                 budget={"quick": 30, "thorough": 240}),
+                 budget={"quick": 30, "thorough": 240}, random={"quick": 12, "thorough": 90}, blind=0.35, maxwalk=40),
             dict(kind="trace", name="TraceTTL", module="TraceTTL", cfg=["TraceTTL.cfg", "TraceTTL_open.cfg"], pkg="generics", test="TestVerifTTLTrace",
                  harness=["generics/ttltrace_test.go"])],
 )
